@@ -208,8 +208,30 @@ def check(ctx, rep):
         if sb is None:
             continue
         names = []
+        evaluated = None
+        try:
+            from ..paths import Const as _C, Walker as _W
+
+            def _cv(call, target, st):
+                if isinstance(call.func, ast.Attribute) and call.func.attr == "geteadict":
+                    return _C({"ABSTRACT": "x", "KEYWORDS": "y"})
+                return None
+
+            outs = set()
+            for p_ in _W(prog, ctx.resolver, call_value=_cv, exact_loops=True, unroll=8,
+                         inline=lambda fn, t, d: d < 3 and t.bound_cls is not None).run(sb, P):
+                if p_.kind == "return" and p_.value is not None and p_.value.kind == "const" and isinstance(p_.value.value, (list, tuple)):
+                    outs.add(tuple(p_.value.value))
+                else:
+                    outs.add(None)
+            if len(outs) == 1 and None not in outs:
+                evaluated = list(next(iter(outs)))
+        except Exception:
+            evaluated = None
+        if evaluated is not None:
+            names = [x for x in evaluated if isinstance(x, str) and x.startswith("+") and x not in ("+ABSTRACT", "+KEYWORDS")]
         for n in ast.walk(sb.node):
-            if isinstance(n, ast.List):
+            if evaluated is None and isinstance(n, ast.List):
                 for e in n.elts:
                     if isinstance(e, ast.Constant) and isinstance(e.value, str) and e.value.startswith("+"):
                         names.append(e.value)
@@ -221,6 +243,9 @@ def check(ctx, rep):
         if P is gp:
             text = norm(sb.node)
             ok = "geteadict()" in text and all(x in names for x in ("+INFO", "+ADMIN", "+VIEWS"))
+            if evaluated is not None:
+                # for an entry with the attributes ABSTRACT and KEYWORDS: the three fixed blocks and one block per attribute, each once
+                ok = sorted(evaluated) == sorted(["+INFO", "+ADMIN", "+VIEWS", "+ABSTRACT", "+KEYWORDS"])
             rep.add("R15b", f"{sb.qualname}: fixed three + one per extended attribute", ok, ctx.where(sb),
                     "" if ok else "the block list does not contain +INFO/+ADMIN/+VIEWS plus one block per entry.geteadict() key",
                     key="R15b|blocklist")
